@@ -318,6 +318,14 @@ fn opts_class(o: &ExtractOpts, n_missing: usize) -> String {
     )
 }
 
+pub static NOTES: std::sync::Mutex<Vec<String>> = std::sync::Mutex::new(Vec::new());
+fn note(s: &str) {
+    let mut n = NOTES.lock().unwrap();
+    if n.len() < 5 {
+        n.push(vcheck::engine::truncate(s, 600));
+    }
+}
+
 fn bump_extract(check: &Check, o: &ExtractOpts, n_missing: usize, has_dirs: bool) {
     check.bump(if o.explicit.is_some() { "extract:named" } else { "extract:all" }, 1);
     if n_missing > 0 {
@@ -466,6 +474,7 @@ pub fn run_lib(check: &Check, c: &LibCase) -> Result<(), Fail> {
         Err(f) if f.signature.starts_with("library-cannot-read-archive") => {
             // C01/C02 territory; here it only means the case cannot be judged
             check.bump("lib-cannot-read-own-archive", 1);
+            note(&format!("{}: {}", spec.summary(), f.message));
             return Ok(());
         }
         Err(f) => return Err(f),
@@ -474,8 +483,9 @@ pub fn run_lib(check: &Check, c: &LibCase) -> Result<(), Fail> {
     let entry = if c.extract.explicit.is_some() { Entry::MpqRead { names: req.clone() } } else { Entry::MpqReadAll };
     let lib = match oracle::ask(&entry, &sb.path("arch.mpq")) {
         Verdict::Ok(v) => v,
-        _ => {
+        v => {
             check.bump("lib-cannot-read-own-archive", 1);
+            note(&format!("{}: {}", spec.summary(), v.describe()));
             return Ok(());
         }
     };
